@@ -39,12 +39,22 @@ def _key_expr(e, arg, P, where):
 def generate(api):
     P = api.P
     tree, rel = api.parse("api/event/event_dispatcher.py")
-    fn = P.find_function(tree, "EventDispatcher", "_sort_listeners", rel)
-    calls = [n for n in ast.walk(fn)
-             if isinstance(n, ast.Call) and isinstance(n.func, ast.Name) and n.func.id == "sorted"]
-    if len(calls) != 1:
-        raise P.Untranslatable("%s: _sort_listeners: expected exactly one sorted(...) call, found %d" % (rel, len(calls)))
-    call = calls[0]
+    fn = P.find_function(tree, "EventDispatcher", "_sort_listeners", rel, decorators=())
+    # strict: the whole method is `self._sorted[e] = []` and the two nested loops that append every listener of every
+    # bucket in the order `sorted` gives (an `insert(0, ..)`, a `reversed(..)` or a second pass would change the order
+    # without changing the key)
+    if [a.arg for a in fn.args.args] != ["self", "event_name"]:
+        raise P.Untranslatable("%s:%d: _sort_listeners(self, event_name) expected" % (rel, fn.lineno))
+    b = P.Template("""
+        self._sorted[event_name] = []
+        for V_priority, V_listeners in HOLE_sorted:
+            for V_listener in V_listeners:
+                self._sorted[event_name].append(V_listener)
+    """).match(fn.body, rel, "_sort_listeners")
+    call = b["sorted"]
+    if not (isinstance(call, ast.Call) and isinstance(call.func, ast.Name) and call.func.id == "sorted"):
+        raise P.Untranslatable("%s:%d: _sort_listeners: expected exactly one sorted(...) call, found %s"
+                               % (rel, call.lineno, ast.unparse(call)[:60]))
     kw = {k.arg: k.value for k in call.keywords}
     if set(kw) != {"key"} or len(call.args) != 1:
         raise P.Untranslatable("%s: _sort_listeners: expected sorted(<items>, key=<lambda>), got keywords %s"
@@ -54,14 +64,36 @@ def generate(api):
                                % (rel, ast.unparse(call.args[0])))
     lam = kw["key"]
     if not (isinstance(lam, ast.Lambda) and len(lam.args.args) == 1 and not lam.args.defaults
-            and not lam.args.vararg and not lam.args.kwarg and not lam.args.kwonlyargs):
+            and not lam.args.vararg and not lam.args.kwarg and not lam.args.kwonlyargs and not lam.args.posonlyargs):
         raise P.Untranslatable("%s: _sort_listeners: key is not a one-argument lambda" % rel)
     key = _key_expr(lam.body, lam.args.args[0].arg, P, rel)
+    # the comment quotes the key with its parameter called `t`, whatever the source calls it
+    import copy
+    lam = copy.deepcopy(lam)
+    old = lam.args.args[0].arg
+    if old != "t" and any(isinstance(n, ast.Name) and n.id == "t" for n in ast.walk(lam.body)):
+        raise P.Untranslatable("%s: _sort_listeners: the key uses a variable `t` that is not its parameter" % rel)
+    for n in ast.walk(lam):
+        if isinstance(n, ast.Name) and n.id == old:
+            n.id = "t"
+    lam.args.args[0].arg = "t"
 
-    add = P.find_function(tree, "EventDispatcher", "add_listener", rel)
+    # add_listener: the default of `priority` is the priority a listener is filed under - the body must use the
+    # parameter as it is (strict: the whole body is the modelled bucket insertion)
+    add = P.find_function(tree, "EventDispatcher", "add_listener", rel, decorators=())
     names = [a.arg for a in add.args.args]
-    if names != ["self", "event_name", "listener", "priority"] or len(add.args.defaults) != 1:
+    if names != ["self", "event_name", "listener", "priority"] or len(add.args.defaults) != 1 \
+            or add.args.vararg or add.args.kwarg or add.args.kwonlyargs:
         raise P.Untranslatable("%s: add_listener: expected (self, event_name, listener, priority=<int>)" % rel)
+    P.Template("""
+        if event_name not in self._listeners:
+            self._listeners[event_name] = {}
+        if priority not in self._listeners[event_name]:
+            self._listeners[event_name][priority] = []
+        self._listeners[event_name][priority].append(listener)
+        if event_name in self._sorted:
+            del self._sorted[event_name]
+    """).match(add.body, rel, "add_listener")
     d = add.args.defaults[0]
     if isinstance(d, ast.UnaryOp) and isinstance(d.op, ast.USub) and isinstance(d.operand, ast.Constant):
         dv = -d.operand.value
